@@ -80,6 +80,19 @@ fn perturb_heap(seed: u64) -> Vec<Vec<u8>> {
     keep
 }
 
+/// RLIMIT_CPU counts the whole process: before each step the soft limit is moved to "CPU used
+/// so far + allowance", so that one spinning command dies with SIGXCPU after `secs` seconds
+/// of CPU however many commands ran before it in this process.
+fn step_cpu_allowance(secs: u64) {
+    unsafe {
+        let mut ru: libc::rusage = std::mem::zeroed();
+        libc::getrusage(libc::RUSAGE_SELF, &mut ru);
+        let used = (ru.ru_utime.tv_sec + ru.ru_stime.tv_sec) as u64 + 2;
+        let lim = libc::rlimit { rlim_cur: used + secs, rlim_max: libc::RLIM_INFINITY };
+        libc::setrlimit(libc::RLIMIT_CPU, &lim);
+    }
+}
+
 fn run_step(step: &Step, out: File, err: File) -> StepRes {
     let mut res = StepRes::default();
     match step.kind.as_str() {
@@ -199,13 +212,10 @@ pub fn child_main(req_path: &str) -> ! {
     };
     drop(req_bytes);
 
-    // a genuine hang burns CPU: bound it (the wall-clock watchdog of the parent only guards
-    // against a stalled host)
-    unsafe {
-        let secs = 10 + (req.steps.len() as u64) / 4;
-        let lim = libc::rlimit { rlim_cur: secs, rlim_max: secs + 2 };
-        libc::setrlimit(libc::RLIMIT_CPU, &lim);
-    }
+    // a genuine hang burns CPU: every step gets a CPU allowance (see `step_cpu_allowance`);
+    // the wall-clock watchdog of the parent only guards against a stalled host
+    let step_cpu_s = req.cpu_limit_s.unwrap_or(10).max(1);
+    step_cpu_allowance(step_cpu_s);
 
     // child's own stderr (panic messages from std, "has overflowed its stack", aborts)
     let cerr = raw_create(&format!("{}/child.stderr", req.res_dir));
@@ -263,6 +273,7 @@ pub fn child_main(req_path: &str) -> ! {
             .stack_size(STACK_BYTES)
             .spawn(move || {
                 for (i, (step, (out, err))) in steps.into_iter().zip(captures.into_iter()).enumerate() {
+                    step_cpu_allowance(step_cpu_s);
                     seams::raw_write_all(meta_fd, format!("{{\"start\":{i}}}\n").as_bytes());
                     seams::register_fd(out.as_raw_fd(), FdClass::Out);
                     seams::register_fd(err.as_raw_fd(), FdClass::Out);
@@ -286,6 +297,7 @@ pub fn child_main(req_path: &str) -> ! {
         let _ = handle.join();
     } else {
         for (i, (step, (out, err))) in steps.into_iter().zip(captures.into_iter()).enumerate() {
+            step_cpu_allowance(step_cpu_s);
             seams::raw_write_all(meta_fd, format!("{{\"start\":{i}}}\n").as_bytes());
             seams::register_fd(out.as_raw_fd(), FdClass::Out);
             seams::register_fd(err.as_raw_fd(), FdClass::Out);
